@@ -20,15 +20,15 @@ BANNED = {'ha': ['twopl', 'n3', 't2', 'llq', 'luq', 'lt'], 'sm': ['n2', 'n3', 'u
 TIES = [0.0, 0.2, 0.5, 1.0, 0.85]
 
 
-def legal(rng, mp=None, small=True):
+def legal(rng, mp=None, small=True, lo=1, hi=None):
     mp = mp or rng.choice(MPS)
-    hi = 5 if small else 9
+    hi = hi or (5 if small else 9)
     ns = dict(mp=mp, numinst=rng.randint(1, 2), twopl=False)
     for f in FIELDS:
         ns[f] = None
-    n1 = rng.randint(1, hi)
+    n1 = rng.randint(lo, hi)
     ns['n1'] = n1
-    n2 = n1 if mp == 'sm' else rng.randint(1, hi - 1)
+    n2 = n1 if mp == 'sm' else rng.randint(lo, max(lo, hi - 1))
     if mp != 'sm':
         ns['n2'] = n2
     ns['pmin'] = rng.randint(1, n2)
@@ -48,7 +48,7 @@ def legal(rng, mp=None, small=True):
         if rng.random() < 0.5:
             ns['lq'] = rng.randint(0, min(ns['uq'], n1))
     if mp == 'spa':
-        n3 = rng.randint(1, hi - 1)
+        n3 = rng.randint(1 if lo == 1 else 2, hi - 1)
         ns['n3'] = n3
         ns['luq'] = rng.randint(1, 3 * n3)
         if rng.random() < 0.6:
